@@ -338,7 +338,33 @@ func cmdC14(c *ctx) {
 		expectErr := ""
 		var mapS []string
 		// clean class: one module in three spells the i32 literals of its initialisers as abstract ints (small values, + - * only)
-		bare := knob == "clean" && c.chance(0.33)
+		bare := (knob == "clean" && c.chance(0.33)) || (knob == "bigval" && c.chance(0.3))
+		// shape of the recorded defect "an unsuffixed integer literal of an override initialiser is stored as an f32
+		// literal": some such literal (of an override that takes its default) is not exactly representable in f32
+		f32lit := false
+		if bare {
+			var walkLits func(e *wexpr)
+			walkLits = func(e *wexpr) {
+				if e == nil {
+					return
+				}
+				if e.k == "lit" && e.ty.k == "i32" {
+					// (u32 literals keep their suffix in this spelling)
+					v := float64(int32(e.bits))
+					if float64(float32(v)) != v {
+						f32lit = true
+					}
+				}
+				for _, a := range e.args {
+					walkLits(a)
+				}
+			}
+			for _, o := range ovs {
+				if o.init != nil {
+					walkLits(o.init)
+				}
+			}
+		}
 		for _, o := range ovs {
 			if o.id >= 0 {
 				fmt.Fprintf(&decls, "@id(%d) ", o.id)
@@ -488,6 +514,10 @@ func cmdC14(c *ctx) {
 		if ovf {
 			ovfTag = " ovf"
 			c.count("shape:int-overflow")
+		}
+		if f32lit {
+			ovfTag += " f32lit"
+			c.count("shape:bare-literal-not-f32-exact")
 		}
 		src := "@group(0) @binding(0) var<storage, read> inp: array<u32>;\n@group(0) @binding(1) var<storage, read_write> outp: array<u32>;\n" +
 			decls.String() + helperSrc + ref.entry.wgsl(true, 1)
